@@ -726,6 +726,11 @@ func (e *Env) callExpr(ex *ast.CallExpr) (SVal, error) {
 		}
 		b, err := e.eval(ex.Args[1])
 		if err != nil {
+			// a consequent that names something the function no longer has is a binding problem of the contract, not
+			// a property of this path (a renamed loop variable must not read as "the clause fails")
+			if strings.Contains(err.Error(), "unknown identifier") {
+				return SVal{}, err
+			}
 			// the consequent cannot even be stated on this path (it names an event that did not happen):
 			// the antecedent must then be impossible here
 			return mkBool(imp(a.T, "false")), nil
